@@ -789,6 +789,32 @@ def rule_wpostfix(roles):
     return obs
 
 
+def _munch_pred_pure(prog, uid):
+    """the registry membership test that gates the extension answers from the registries alone: no body it can reach
+    refers to a static that is not one of the engine's known cells (a remembered answer - a miss / hit cache - is only
+    right until the next registration, and `registered` in `longest registered operator` means registered *now*)"""
+    import r_misc
+    sid = {s['id']: s for s in prog.f.statics}
+    g = prog.by_id[uid]
+    obs = []
+    n = 0
+    for bid in sorted(prog.reach([uid])):
+        b = prog.by_id[bid]
+        n += 1
+        for bb, i, pl, rv in b.assigns():
+            ops = [rv.get('op')] if rv['k'] in ('use', 'cast') else (rv.get('ops', []) if rv['k'] == 'agg' else [])
+            for o in ops:
+                if isinstance(o, dict) and o.get('k') == 'const' and 'static' in o:
+                    s = sid.get(o['static'])
+                    if s is not None and (s.get('thread_local') or r_misc.classify_static(s) == 'OTHER'):
+                        obs.append(bad('MUNCH', 'MUNCH|pure|%s|%s' % (g.name, s['name']),
+                                       'the operator-membership test %s (which decides how far a symbolic operator extends) reaches static %s through %s: that is not a registry, so the answer '
+                                       'can be one remembered from before a registration (an operator probed earlier is split / a replaced one still matched)' % (g.name, s['name'], b.name), b.where(bb), body=b.name, bb=bb))
+    if not obs:
+        obs.append(ok('MUNCH', 'MUNCH|pure|%s' % g.name, 'the operator-membership test %s reaches %d bodies, none of which refers to a static other than the registries / once flag: it answers from the current registry contents' % (g.name, n), g.where(0)))
+    return obs
+
+
 def rule_munch(roles, tm):
     first = _rule_munch(roles, tm, roles.token_bodies())
     if not any(o.status == 'violated' for o in first):
@@ -808,6 +834,7 @@ def _rule_munch(roles, tm, bodies):
     prog = roles.prog
     obs = []
     n = 0
+    pure_done = set()
     for b in bodies:
         if not any(rv['k'] == 'agg' and rv.get('adt') == roles.token_adt and rv.get('variant') == 'Operator' for bb, i, pl, rv in b.assigns()):
             continue
@@ -820,6 +847,7 @@ def _rule_munch(roles, tm, bodies):
             key = 'MUNCH|%s|#%d' % (b.name, k)
             extra = []
             has_reg = False
+            preds_seen = set()
             for sb, kind, detail in gates_of(b, a.bb):
                 if kind in ('try', 'option'):
                     continue
@@ -830,8 +858,12 @@ def _rule_munch(roles, tm, bodies):
                     g = prog.by_id[detail.ruid]
                     if not any((roles.tok_name or '\0') in g.locals[k]['ty'] for k in range(1, g.arg_count + 1)):
                         has_reg = True
+                        preds_seen.add(detail.ruid)
                         continue
                 extra.append('bb%d: %s %s' % (sb, kind, (detail.rdef or detail.callee) if kind == 'pred' else (detail if isinstance(detail, str) else '')))
+            for pu in sorted(preds_seen - pure_done):
+                pure_done.add(pu)
+                obs.extend(_munch_pred_pure(prog, pu))
             if extra:
                 obs.append(bad('MUNCH', key, 'extending a symbolic operator also depends on %s: a registered operator containing such a character is split (not the longest registered operator)' % '; '.join(extra), a.where(), body=b.name, bb=a.bb))
             elif not has_reg:
